@@ -52,6 +52,23 @@ func (g *generator) undoWake(r *run) []string {
 	sort.Strings(blocked)
 	k := strings.Split(blocked[g.rng.Intn(len(blocked))], "/")
 	spec := w.pqSpec[atoi(k[0])] // "comps plat"
+	if g.rng.Chance(1, 4) {
+		// a client leaves; shortly before its operation expires it (or another client) calls
+		// WaitExecution, whose authorization takes until after the no-waiter timeout has run
+		var cs []int
+		for c, m := range r.streams {
+			if cl := w.clients[c]; cl != nil && !cl.done && m.op >= 0 && !m.done {
+				cs = append(cs, c)
+			}
+		}
+		if len(cs) > 0 {
+			sort.Ints(cs)
+			c := cs[g.rng.Intn(len(cs))]
+			g.nextC++
+			return []string{fmt.Sprintf("0 cancel %d", c), fmt.Sprintf("6 wait %d %d hold=1", g.nextC, r.streams[c].op), "2 touch hold=1", "0 touch",
+				fmt.Sprintf("1 cancel %d", g.nextC), "9 touch"}
+		}
+	}
 	switch g.rng.Intn(3) {
 	case 0: // drained and undrained at once
 		pat := k[2]
